@@ -113,5 +113,7 @@ pub fn op_name(op: &Op) -> &'static str {
         Op::SetEmissions { .. } => "set_emissions",
         Op::SetEmissionsNearVault { .. } => "set_emissions_near_vault",
         Op::FundRewardVault { .. } => "fund_reward_vault",
+        Op::SetTransferFee { .. } => "set_transfer_fee",
+        Op::AdvanceEpoch(_) => "advance_epoch",
     }
 }
